@@ -17,14 +17,13 @@ func init() { register("C02", c02) }
 
 func c02(c *core.Ctx, r *core.Report) {
 	ro := c.Roles()
-	r.Explanation = "C02 cycles resolve and start-up terminates. Termination argument (paper): a name enters creation at most once per start because the accessor consults the cache with early references allowed before creating (R3), the early factory is registered before any dependency is resolved (R1) under a condition that is not narrower than {singleton, circular references allowed, in creation} (R2), the registry reports the name in creation during the whole callback (R5 = C04.A2), every call-graph cycle through the creator passes the cache accessor (R4), candidates are filtered for the holder itself before injection with error-iff-required on an empty rest (R6, Inject decision table), and every loop on the creation path has a bounded form (R7). The tool decides these premises on all paths; that a concrete graph ends up fully wired is not decided."
+	r.Explanation = "C02 cycles resolve and start-up terminates. Termination argument (paper): a name enters creation at most once per start because the accessor consults the cache with early references allowed before creating (R3), the early factory is registered before any dependency is resolved (R1) under a condition that is not narrower than {singleton, circular references allowed, in creation} (R2), the registry reports the name in creation during the whole callback (R5 = C04.A2), every call-graph cycle through the creator passes the cache accessor (R4), candidates are filtered for the holder itself before injection with error-iff-required on an empty rest (R6, Inject decision table), every loop on the creation path has a bounded form (R7), and candidate selection never answers with the holder itself (R8, narrowing table). The tool decides these premises on all paths; that a concrete graph ends up fully wired is not decided."
 	r.Assumptions = []string{"user callbacks terminate", "parent chains of holders are acyclic (Holder.Holder is set only in a constructor to an already constructed holder)"}
 	l := findLifecycle(c, r, "C02.R0")
 	if l == nil {
 		return
 	}
 	ex := l.exposer
-	ev := l.ev
 	// ---- R1 / R2 via the creator decision table + structure
 	rs, runs, und := exposerTable(c, l)
 	r.Count("exposer_table_runs", runs)
@@ -38,41 +37,7 @@ func c02(c *core.Ctx, r *core.Report) {
 			return ""
 		}, "exposer-table@"+core.FnName(ex), exposerRows)
 	}
-	// structural must-pass-through: every path to a DEP-reaching call passes the AddSingletonFactory block or the
-	// false edge of a condition the registration is control dependent on
-	var add *ssa.Call
-	for _, ci := range core.Calls(ex) {
-		if call, ok := ci.(*ssa.Call); ok && core.IsInvoke(call.Common(), ro.SCRAddFactory) {
-			add = call
-		}
-	}
-	depSites := ev.SitesReaching(ex, evDep)
-	if add == nil || len(depSites) == 0 {
-		r.Undecided("C02.R1", "expose-before-populate@"+core.FnName(ex), c.FnPos(ex), "AddSingletonFactory site or dependency-resolving site not found")
-	} else {
-		cut := map[[2]*ssa.BasicBlock]bool{}
-		var conds []core.CondEdge
-		for _, cd := range c.ControlDeps(add.Block()) {
-			conds = append(conds, cd)
-			k := 1
-			if !cd.Branch {
-				k = 0
-			}
-			cut[[2]*ssa.BasicBlock{cd.If.Block(), cd.If.Block().Succs[k]}] = true
-		}
-		for _, d := range depSites {
-			passes := !reachableAvoiding(ex, d.Block(), map[*ssa.BasicBlock]bool{add.Block(): true}, cut)
-			r.Check(passes && core.Dominates(add.Block().Instrs[0], add) && !core.BlockReaches(d.Block(), add.Block()), "C02.R1", "expose-before-populate@"+core.FnName(ex), c.Pos(d.Pos()),
-				"every path to dependency resolution has registered the early factory or taken the false edge of the exposure condition")
-		}
-		// R2: the exposure condition's atoms
-		for i, cd := range conds {
-			kind := exposureAtom(c, ro, cd.If.Cond)
-			r.Check(kind != "", "C02.R2", fmt.Sprintf("exposure-condition-atom#%d@%s", i, core.FnName(ex)), c.Pos(cd.If.Cond.Pos()),
-				"each atom of the exposure condition is one of {IsSingleton() (constant true), a factory flag that is only ever true, IsSingletonCurrentlyInCreation(name)}: "+kind)
-		}
-		r.Floor("C02.R2", "exposure condition atoms", len(conds), 1)
-	}
+	exposureStructure(c, r, l, "C02.R1", "C02.R2")
 	// ---- R3
 	accessorRules(c, r, "C02.R3", l)
 	// ---- R4: every call-graph cycle through the creator contains the accessor
@@ -105,9 +70,71 @@ func c02(c *core.Ctx, r *core.Report) {
 		}, "inject-table@(*component_definition.Property).Inject", injectRows)
 	}
 	smallModelCheck(c, r, "C02.R6", "inject-table", ro.PropertyInject, int64(listLen(c)))
+	isSelfTable(c, r, "C02.R6")
 	smallModelCheck(c, r, "C02.R1", "exposer-table", ex, 2)
+	// ---- R8 selection on a self-free list: the narrowing never answers with the holder itself, so the self filter of
+	// Inject cannot empty a point that has another valid candidate
+	if nf, _, _ := narrowingFn(c, builtinProcessors(c)); nf != nil {
+		nrs, nruns, nund := narrowTable(c, nf, 2)
+		r.Count("narrowing_table_runs", nruns)
+		if nund != "" {
+			r.Undecided("C02.R8", "narrowing-table", c.FnPos(nf), "abstract interpretation left the model: "+nund)
+		} else {
+			nrs.report(c, r, nf, func(row string) string {
+				if row == "never-self" || row == "single-member" || row == "nothing-qualifies" {
+					return "C02.R8"
+				}
+				return ""
+			}, "narrowing-table@"+core.FnName(nf), narrowRows)
+		}
+	} else {
+		r.Undecided("C02.R8", "role:narrowing", "", "narrowing function not found")
+	}
 	// ---- R7 bounded loops
 	c02Loops(c, r, []string{"container/factory", "container/support", "component_definition", "container/processors", "container"}, "C02.R7")
+}
+
+// exposureStructure: the early factory is registered before any dependency is resolved (must-pass-through) and the
+// exposure condition is made of allowed atoms only.
+func exposureStructure(c *core.Ctx, r *core.Report, l *lifecycleRoles, rule1, rule2 string) {
+	ro := c.Roles()
+	ex := l.exposer
+	ev := l.ev
+	// structural must-pass-through: every path to a DEP-reaching call passes the AddSingletonFactory block or the
+	// false edge of a condition the registration is control dependent on
+	var add *ssa.Call
+	for _, ci := range core.Calls(ex) {
+		if call, ok := ci.(*ssa.Call); ok && core.IsInvoke(call.Common(), ro.SCRAddFactory) {
+			add = call
+		}
+	}
+	depSites := ev.SitesReaching(ex, evDep)
+	if add == nil || len(depSites) == 0 {
+		r.Undecided(rule1, "expose-before-populate@"+core.FnName(ex), c.FnPos(ex), "AddSingletonFactory site or dependency-resolving site not found")
+	} else {
+		cut := map[[2]*ssa.BasicBlock]bool{}
+		var conds []core.CondEdge
+		for _, cd := range c.ControlDeps(add.Block()) {
+			conds = append(conds, cd)
+			k := 1
+			if !cd.Branch {
+				k = 0
+			}
+			cut[[2]*ssa.BasicBlock{cd.If.Block(), cd.If.Block().Succs[k]}] = true
+		}
+		for _, d := range depSites {
+			passes := !reachableAvoiding(ex, d.Block(), map[*ssa.BasicBlock]bool{add.Block(): true}, cut)
+			r.Check(passes && core.Dominates(add.Block().Instrs[0], add) && !core.BlockReaches(d.Block(), add.Block()), rule1, "expose-before-populate@"+core.FnName(ex), c.Pos(d.Pos()),
+				"every path to dependency resolution has registered the early factory or taken the false edge of the exposure condition")
+		}
+		// R2: the exposure condition's atoms
+		for i, cd := range conds {
+			kind := exposureAtom(c, ro, cd.If.Cond)
+			r.Check(kind != "", rule2, fmt.Sprintf("exposure-condition-atom#%d@%s", i, core.FnName(ex)), c.Pos(cd.If.Cond.Pos()),
+				"each atom of the exposure condition is one of {IsSingleton() (constant true), a factory flag that is only ever true, IsSingletonCurrentlyInCreation(name)}: "+kind)
+		}
+		r.Floor(rule2, "exposure condition atoms", len(conds), 1)
+	}
 }
 
 // exposureAtom classifies one atom of the early-exposure condition; "" = not allowed.
